@@ -156,7 +156,8 @@ def run_cases(ctx, cases, attribute=True):
             key = json.dumps([case["vars"], case["cons"], case["hints"], case["limit"]], sort_keys=True)
             groups.setdefault(key, []).append((case["solver"], st != "INFEASIBLE", bool(fails)))
         # soft tie of the DFS mirror: with a limit above the number of solutions the DFS path returns all of them
-        if out[0] == "ok" and path == "dfs" and st != "INFEASIBLE" and d["dfs"] is not None:
+        if (out[0] == "ok" and path == "dfs" and st != "INFEASIBLE" and d["dfs"] is not None
+                and len(d["hint_sols"]) < case["limit"]):
             got = sorted(tuple(s) for s in (out[1]["sols"] or []) if None not in s)
             ctx.count("dfs_mirror_same_set" if got == sorted(tuple(s) for s in d["dfs"]) else "dfs_mirror_other_set")
         canon = [case["vars"], case["cons"], case["hints"], case["limit"], case["solver"]]
@@ -204,9 +205,10 @@ def run_cases(ctx, cases, attribute=True):
 def run(ctx, budget):
     ctx.cov["rule"] = RULE
     cases = list(edge_cases()) + [c["case"] for c in core.load_corpus("C05")]
-    n_models = 330 * budget
-    cases += gen_cases(ctx.rng, n_models, big=(ctx.tier == "thorough"))
     run_cases(ctx, cases)
+    # batches bound the memory of a thorough run; every batch is generated from ctx.rng only
+    for _ in range(5 * budget):
+        run_cases(ctx, gen_cases(ctx.rng, 1000, big=(ctx.tier == "thorough")))
 
 
 def replay(ctx, body):
